@@ -455,8 +455,14 @@ class Runner:
             rec = {'case': c, 'impl': iobs, 'model': None, 'diff': None, 'viol': []}
             try:
                 rec['viol'] = list(self.mod.oracle(c, iobs) or [])
-            except Exception as e:          # an oracle crash is a harness bug, surface it
-                raise
+            except Exception as e:
+                # The oracle cannot interpret what the implementation returned (a candidate that is not in the votes, a key of an
+                # unexpected type ...).  On the unchanged tree this never happens (the check would be broken); on a changed tree it is
+                # the change that produced the uninterpretable result, so it is reported with this input instead of ending the run as a
+                # harness error.
+                if os.environ.get('VERIF_RAISE_ORACLE_ERRORS'):
+                    raise
+                rec['viol'] = [('result_not_interpretable:' + type(e).__name__, f'oracle raised {type(e).__name__}: {str(e)[:200]} on {str(iobs)[:300]}')]
             recs.append(rec)
             if with_model:
                 ml = self.model_line(c)
@@ -470,7 +476,12 @@ class Runner:
                 if isinstance(o, dict) and 'driver_error' in o:
                     recs[i]['diff'] = 'driver_error: ' + str(o['driver_error'])
                 else:
-                    recs[i]['diff'] = self.compare(recs[i]['case'], recs[i]['impl'], o)
+                    try:
+                        recs[i]['diff'] = self.compare(recs[i]['case'], recs[i]['impl'], o)
+                    except Exception as e:      # same reasoning as for the oracle: an uninterpretable result is a difference
+                        if os.environ.get('VERIF_RAISE_ORACLE_ERRORS'):
+                            raise
+                        recs[i]['diff'] = f'compare raised {type(e).__name__}: {str(e)[:200]}'
         return recs
 
     def shrink(self, case, still_fails, budget=200):
